@@ -10,7 +10,12 @@ non-anticipativity demanded of whatever is produced.  Hedgers with user FORWARD 
 model; appended / prepended / with_kwargs; lot-size rounding, caps, feature transforms), both evaluation orders: last column, perturbation
 experiment, bitwise agreement with the hook-free hedger the hook protocol implies (also sent to the Lean model where expressible).  Every such scenario is also run through the Lean model of
 the hook protocol itself (Model/Hooks.lean `computeHedgeHooked`, op "hooked_hedge", Float carrier): the positions AND the value of `prev_output`
-the features read at each step (recorded on the real hedger by an observing pre-hook) are compared exactly.
+the features read at each step (recorded on the real hedger by an observing pre-hook) are compared exactly.  Black-Scholes type models
+(BlackScholes of the four options, WhalleyWilmott; as the model or inside a ModuleOutput) given a PARTIAL input list on every underlier with
+time-varying volatility: no hedge (shape error) is accepted, a hedge that is produced must pass the perturbation experiment (every later
+price / volatility / variance changed) and the last-column test.  USER MODELS RETURNING A VIEW of their input / the input itself / the
+input modified in place (both evaluation orders, with and without autograd): additionally compared bitwise with the definition
+out_j = model(cat(features_j, out_{j-1})) evaluated on fresh inputs, and with the Lean model (0/1-weight linear model) where expressible.
 """
 from fractions import Fraction as F
 from common import *  # noqa
@@ -1398,4 +1403,7 @@ def check(ctx):
              "smallest positive price, nan-aware bitwise comparison; hedgers with user forward hooks / pre-hooks (on the hedger appended / prepended / "
              "with_kwargs, on the model) x all model kinds x both evaluation orders: last column, perturbation, bitwise agreement with the hook-free "
              "hedger the hook protocol implies, hook removal; every hook scenario also against the Lean model of the hook protocol (op hooked_hedge: "
-             "positions and the prev_output value read at each step, exact), plus hedgers with 2-5 hooks at once in random placements and registration order; distinct = sha1 of canonical case")
+             "positions and the prev_output value read at each step, exact), plus hedgers with 2-5 hooks at once in random placements and registration order; Black-Scholes type models (4 options, WhalleyWilmott, also as "
+             "ModuleOutput features) with strict subsets of model.inputs() x {Heston, RoughBergomi, LocalVolatility, user primary}: no-hedge recorded, any "
+             "hedge produced checked with all later columns of every buffer changed; user models returning views of / the / the in-place modified input "
+             "(8 kinds x both evaluation orders x autograd on/off) against the step-by-step definition on fresh inputs, bitwise; distinct = sha1 of canonical case")
